@@ -42,6 +42,10 @@ type Mutation struct {
 	Frac  int    `json:"frac"`  // selects the middle index
 	Field string `json:"field"` // index, term, type, data-flip, data-trunc, data-extend, data-replace, ext-flip, ext-extend, swap
 	Bit   int    `json:"bit"`
+	// CompactAfterRead (at rest only): right after the verifier has read the last entry of the
+	// divergent range, a head compaction removes everything up to and including the range's first
+	// index. Every entry was read, so the divergence must still be reported as a checksum mismatch.
+	CompactAfterRead bool `json:"compactAfterRead,omitempty"`
 }
 
 type ClusterCase struct {
@@ -96,6 +100,17 @@ func genHistory(t *rapid.T, maxOps int) ClusterCase {
 			// the node's underlying store rejects its next StoreLogs (nothing written); raft retries
 			c.Ops = append(c.Ops, HOp{K: "failstore", Node: rapid.IntRange(0, c.N-1).Draw(t, "node")})
 		default:
+			if rapid.IntRange(0, 2).Draw(t, "racecompact") == 0 {
+				// the leader appends while a compaction of entries behind its last checkpoint, running on
+				// another goroutine (raft's snapshot goroutine), is inside the underlying store's DeleteRange
+				op := HOp{K: "racecompact", Keep: rapid.IntRange(0, 3).Draw(t, "keep")}
+				for j := 0; j < rapid.IntRange(1, 3).Draw(t, "n"); j++ {
+					e := genESpec(t, 0)
+					op.Entries = append(op.Entries, e)
+				}
+				c.Ops = append(c.Ops, op)
+				break
+			}
 			c.Ops = append(c.Ops, HOp{K: "headtrunc", Node: rapid.IntRange(0, c.N-1).Draw(t, "node"), Keep: rapid.IntRange(0, 6).Draw(t, "keep")})
 		}
 	}
@@ -397,6 +412,8 @@ func (s *sim) run() *common.Failure {
 			s.nodes[i].rest.failStores = 1
 			s.nodes[i].rest.mu.Unlock()
 			s.cls["store-failure-armed"] = true
+		case "racecompact":
+			f = s.raceCompact(op)
 		case "headtrunc":
 			i := op.Node % s.c.N
 			n := s.nodes[i]
@@ -413,6 +430,56 @@ func (s *sim) run() *common.Failure {
 		}
 	}
 	return nil
+}
+
+// raceCompact: a head compaction of entries strictly behind the leader's last checkpoint is
+// started on its own goroutine and parked inside the underlying store's DeleteRange; the leader
+// appends meanwhile; then the compaction finishes. Both are legal concurrently (raft compacts
+// from its snapshot goroutine) and touch disjoint parts of the log.
+func (s *sim) raceCompact(op HOp) *common.Failure {
+	ld := s.nodes[s.leader]
+	if ld.Told.Empty() {
+		return nil
+	}
+	// last checkpoint the leader holds
+	var lastCP uint64
+	for i := ld.Told.Last; i >= ld.Told.First && i > 0; i-- {
+		if e, ok := ld.Told.Get(i); ok {
+			if cp, _ := isCheckpoint(e); cp {
+				lastCP = i
+				break
+			}
+		}
+	}
+	if lastCP == 0 || lastCP <= ld.Told.First+uint64(op.Keep) {
+		return nil
+	}
+	max := lastCP - 1 - uint64(op.Keep)
+	min := ld.Told.First
+	parked, release := make(chan struct{}), make(chan struct{})
+	ld.rest.setGate(func(uint64, uint64) { close(parked); <-release })
+	done := make(chan error, 1)
+	go func() { done <- ld.V.DeleteRange(min, max) }()
+	early := false
+	var derr error
+	select {
+	case <-parked:
+	case derr = <-done:
+		early = true // never reached the underlying store
+	}
+	ld.rest.setGate(nil)
+	f := s.leaderAppend(op.Entries)
+	if !early {
+		close(release)
+		derr = <-done
+	}
+	if derr != nil {
+		return common.Failf("delete-err", "leader head DeleteRange(%d,%d) racing with an append = %v", min, max, derr)
+	}
+	ld.Told.Delete(min, max)
+	s.nodeEv[s.leader]["headtrunc"] = true
+	s.cls["compaction-racing-append"] = true
+	return f
 }
 
 func runC16(c ClusterCase) (res common.Result) {
